@@ -53,11 +53,14 @@ FldMatchG(s, f) == IF "kv" \in DOMAIN s
 \* label tokens: "B" is the one written with a capital letter (str.lower gives "b")
 Lower(l) == IF l = "B" THEN "b" ELSE l
 LabelLower(f) == IF "llabel" \in DOMAIN f THEN f.llabel ELSE Lower(f.label)
+\* "parser" is one of the documented aliases (of "syntax"): a suppression and a feedback that name the same category by
+\* either spelling are about the same category
+Canon(c) == IF c = "parser" THEN "syntax" ELSE c
 Suppressed(f, S) == \E s \in S :
-    \/ s.k = "cat" /\ s.cat = f.cat
-    \/ s.k = "catf" /\ s.cat = f.cat /\ FldMatchG(s, f)                  \* a whole category, narrowed by fields
-    \/ s.k = "catlabel" /\ s.cat = f.cat /\ Lower(s.label) = LabelLower(f)   \* category-scoped labels compare lower-cased
-    \/ s.k = "catlabelf" /\ s.cat = f.cat /\ Lower(s.label) = LabelLower(f) /\ FldMatchG(s, f)
+    \/ s.k = "cat" /\ Canon(s.cat) = Canon(f.cat)
+    \/ s.k = "catf" /\ Canon(s.cat) = Canon(f.cat) /\ FldMatchG(s, f)                  \* a whole category, narrowed by fields
+    \/ s.k = "catlabel" /\ Canon(s.cat) = Canon(f.cat) /\ Lower(s.label) = LabelLower(f)   \* category-scoped labels compare lower-cased
+    \/ s.k = "catlabelf" /\ Canon(s.cat) = Canon(f.cat) /\ Lower(s.label) = LabelLower(f) /\ FldMatchG(s, f)
     \/ s.k = "label" /\ s.label = f.label
     \/ s.k = "labelf" /\ s.label = f.label /\ FldMatchG(s, f)
 
